@@ -12,6 +12,14 @@ open Parsley Parsley.Prim Parsley.Obj Parsley.Indirect Parsley.Framing Driver
   offsets: comma-separated cursor positions, one `parse_pdf_indirect_obj` call per offset, shared context
   ids:     comma-separated `num:gen`, looked up in the context after the last call
   description: items joined by `;`, each `S|P,<f0>,…,<f18>,<payloadhex>`
+
+  view variant: `vw <steps> <prehex> <sufhex> <sc … | raw …>`   the same case, run on a RESTRICTED VIEW:
+    `<prehex> ++ <bufhex> ++ <sufhex>` is one allocation, `<steps>` (comma-separated `R<start>:<size>` =
+    RestrictView, `F<start>` = RestrictViewFrom, each applied to the result of the previous one) select
+    the window `<bufhex>` in it.  What is expected is what is expected of the window's bytes as a buffer
+    of their own: offsets, spans, cursors and `StreamContentT.start` are cursors of the view the parser
+    was given (an "absolute" `start` in the sense of C15 = absolute in THAT buffer; nothing is re-based
+    to the allocation), and nothing outside the window is read.
 -/
 
 def splitNats (s : String) : Option (List Nat) :=
@@ -41,6 +49,41 @@ def parseItem (s : String) : Option Item :=
 def parseDesc (s : String) : Option (List Item) := (s.splitOn ";").mapM parseItem
 def showDesc (l : List Item) : String := ";".intercalate (l.map showItem)
 
+/-! ### restricted views (transforms.rs): window arithmetic -/
+
+inductive VStep where
+  | r (start size : Nat)   -- RestrictView::new(start, size)
+  | f (start : Nat)        -- RestrictViewFrom::new(start)
+
+def showStep : VStep → String
+  | .r a b => s!"R{a}:{b}"
+  | .f a => s!"F{a}"
+
+def parseStep (s : String) : Option VStep :=
+  match s.toList with
+  | 'R' :: t =>
+    match (String.ofList t).splitOn ":" with
+    | [a, b] => match a.toNat?, b.toNat? with | some a, some b => some (.r a b) | _, _ => none
+    | _ => none
+  | 'F' :: t => (String.ofList t).toNat?.map .f
+  | _ => none
+
+def parseSteps (s : String) : Option (List VStep) := (s.splitOn ",").mapM parseStep
+def showSteps (l : List VStep) : String := ",".intercalate (l.map showStep)
+
+/-- the window (start, size) of the allocation that a chain of restrictions selects, `none` when a
+    step is refused: RestrictView(a, b) needs `a + b ≤ size`, RestrictViewFrom(a) needs `a < size` -/
+def applySteps : List VStep → Nat × Nat → Option (Nat × Nat)
+  | [], w => some w
+  | .r a b :: t, (st, sz) => if b ≤ sz && a ≤ sz - b then applySteps t (st + a, b) else none
+  | .f a :: t, (st, sz) => if a < sz then applySteps t (st + a, sz - a) else none
+
+/-- `none`: the steps select exactly the window `buf` of `pre ++ buf ++ suf` -/
+def viewFault (steps : List VStep) (pre buf suf : Bytes) : Option String :=
+  match applySteps steps (0, pre.length + buf.length + suf.length) with
+  | none => some "view-error"
+  | some (st, sz) => if st == pre.length && sz == buf.length then none else some "view-mismatch"
+
 /-! ### model side -/
 
 def showCall (c : Ctx) (s : Bytes) (off : Nat) : String × Ctx :=
@@ -52,8 +95,8 @@ def showCall (c : Ctx) (s : Bytes) (off : Nat) : String × Ctx :=
   | (.err e, k) => (s!"err {e} {k} {delta}", c')
   | (.panic p, k) => (s!"panic {p} {k}", c')
 
-def model (line : String) : String :=
-  match words line with
+def modelPlain (ws : List String) : String :=
+  match ws with
   | _ :: d :: hex :: offs :: ids :: _ =>
     match d.toNat?, bytesOfHex hex, splitNats offs, splitIds ids with
     | some d, some s, some offs, some ids =>
@@ -68,6 +111,22 @@ def model (line : String) : String :=
       " | ".intercalate (segs.reverse ++ looks)
     | _, _, _, _ => "bad-case"
   | _ => "bad-case"
+
+/-- a view is modelled by its window: the case on a view selecting the window `buf` is the case on
+    `buf` (that a `ParseBuffer` view behaves like a buffer holding its window is C17's subject) -/
+def model (line : String) : String :=
+  match words line with
+  | "vw" :: steps :: pre :: suf :: rest =>
+    match rest with
+    | _ :: _ :: hex :: _ :: _ :: _ =>
+      match parseSteps steps, bytesOfHex pre, bytesOfHex suf, bytesOfHex hex with
+      | some st, some pre, some suf, some buf =>
+        match viewFault st pre buf suf with
+        | some f => f
+        | none => modelPlain rest
+      | _, _, _, _ => "bad-case"
+    | _ => "bad-case"
+  | ws => modelPlain ws
 
 /-! ### oracle -/
 
@@ -219,15 +278,37 @@ def judgeRaw (hex impl : String) : String :=
     go segs [] false
   | none => "bad-case"
 
-def judge (case impl : String) : String :=
-  let impl := impl.trimAscii.toString
-  match words case with
+def judgePlain (ws : List String) (impl : String) : String :=
+  match ws with
   | ["sc", _, hex, offs, ids, desc] =>
     match judgeScene hex offs ids desc impl with
     | "ok" => judgeRaw hex impl          -- the soundness check applies to scenes as well
     | v => v
   | "raw" :: _ :: hex :: _ => judgeRaw hex impl
   | _ => "bad-case"
+
+/-- A case on a restricted view is judged as the case on the window's bytes: the expectation
+    (`expectSceneW`, soundness of what was accepted) is computed from `<bufhex>` alone - the bytes in
+    front of the window and behind it, and where the window lies in the allocation, do not enter it. -/
+def judge (case impl : String) : String :=
+  let impl := impl.trimAscii.toString
+  match words case with
+  | "vw" :: steps :: pre :: suf :: rest =>
+    match rest with
+    | _ :: _ :: hex :: _ =>
+      match parseSteps steps, bytesOfHex pre, bytesOfHex suf, bytesOfHex hex with
+      | some st, some pre, some suf, some buf =>
+        match viewFault st pre buf suf with
+        | some f => s!"bad desc-mismatch the steps do not select the window ({f})"
+        | none =>
+          if impl == "view-error" || impl == "view-mismatch" then s!"bad view {impl}: the restriction does not show the window's bytes"
+          else
+            match judgePlain rest impl with
+            | "ok" => "ok"
+            | v => if v.startsWith "bad " then s!"bad view-{(v.toList.drop 4 |> String.ofList)}" else v
+      | _, _, _, _ => "bad-case"
+    | _ => "bad-case"
+  | ws => judgePlain ws impl
 
 /-! ### generators -/
 
@@ -245,6 +326,104 @@ def sceneCase (d : Nat) (items : List Item) (extraIds : List (Nat × Nat)) : Str
   let ids := ids.eraseDups.filter fun (a, g) => NumLit.headerOK a && NumLit.headerOK g
   let idS := ",".intercalate (ids.map fun (a, g) => s!"{a}:{g}")
   s!"sc {d} {hexOfBytes buf} {offs} {idS} {showDesc items}"
+
+/-! ### every case once more on a restricted view
+
+  Each case line is followed by the same case inside a larger allocation.  Three axes, cycled by the
+  running case counter `c` with pairwise coprime periods (16, 7, 5: every combination occurs within
+  560 cases):
+  * bytes in front of the window: 1, 7, 11, 1000 (and 0, 2, 3, 5, 13, 64) of them - text that is itself
+    a header and complete objects, or random bytes;
+  * the chain of restrictions: RestrictView; RestrictViewFrom; a view of a view (From then View, View
+    then View with junk on both sides of the inner window, View then From, a View starting at 0 then
+    From); three deep;
+  * bytes behind the window that CONTINUE the scene: what would complete a stream whose declared
+    length runs beyond the window (filler up to the declared length, then `endstream endobj`), the
+    cut-off rest of a truncated scene, or more `endstream` / `endobj` / whole objects - so that an
+    implementation reading beyond the view's end accepts what must be rejected. -/
+
+def hexOrDash (b : Bytes) : String := if b.isEmpty then "-" else hexOfBytes b
+
+def junkText : Bytes :=
+  bs "%PDF-1.4 junk\n9 9 obj<</Length 3>>stream\nzzz\nendstream endobj\n8 0 obj 5 endobj\n1 0 obj<</Length 5>>stream\nHELLO\nendstream\nendobj\n"
+
+def prefixJunk (p c : Nat) : Bytes :=
+  if c % 2 == 0 then (List.range p).map fun i => junkText[(i + c / 2) % junkText.length]?.getD 37
+  else (Rng.bytes p (Rng.mk' (c + 1))).1
+
+def prefLens : List Nat := [1, 7, 11, 2, 7, 11, 1, 0, 13, 1000, 1, 7, 11, 64, 5, 3]
+
+def viewSteps (shape p n s : Nat) : List VStep :=
+  let p1 := p / 2
+  let s1 := s / 2
+  match shape % 7 with
+  | 0 => [.r p n]
+  | 1 => [.f p]                                              -- (nothing behind the window)
+  | 2 => [.f p1, .r (p - p1) n]
+  | 3 => [.r p1 ((p - p1) + n + s1), .r (p - p1) n]
+  | 4 => [.r p1 ((p - p1) + n), .f (p - p1)]
+  | 5 => [.r 0 (p + n), .f p]
+  | _ => [.r (p / 3) ((p - p / 3) + n + s1), .f (p / 3), .r (p - 2 * (p / 3)) n]
+
+/-- what would complete the last stream of a scene behind the window: its declared (direct, positive)
+    length reaches the end of the window or beyond it -/
+def completion (items : List Item) : Option Bytes :=
+  let (buf, lays) := renderScene items 0
+  match items.getLast?, lays.getLast? with
+  | some it, some lay =>
+    if !it.isStream then none else
+    match (lenEntry it).declared with
+    | .int z =>
+      let e1 := eol1Tab[it.g 15 % eol1Tab.length]?.getD [10]
+      let dataStart := lay.kw + 6 + e1.length
+      if z > 0 && z < 100000 && (e1 == [10] || e1 == [13, 10]) && dataStart + z.toNat ≥ buf.length then
+        some (List.replicate (dataStart + z.toNat - buf.length) 122 ++ bs "\nendstream\nendobj\n")
+      else none
+    | _ => none
+  | _, _ => none
+
+/-- the view variant of a case line; `cont` = a continuation of this particular case, if one is known -/
+def viewLine (c : Nat) (line : String) (cont : Option Bytes) : Option String :=
+  match words line with
+  | tag :: _ :: hex :: _ :: _ :: rest =>
+    match bytesOfHex hex with
+    | some buf =>
+      let cont := match cont with
+        | some b => some b
+        | none => if tag == "sc" then (rest.head?.bind parseDesc).bind completion else none
+      let p := prefLens[c % 16]?.getD 1
+      let shape := c % 7
+      let more := bs "\r\nendstream\r\nendobj\n1 0 obj<</Length 2>>stream\nxx\nendstream endobj\n"
+      let suf : Bytes := if shape == 1 then [] else
+        match c % 5 with
+        | 0 => cont.getD (bs "\nendstream\nendobj\n")
+        | 1 => []
+        | 2 => bs " endstream endobj\n"
+        | 3 => cont.getD more
+        | _ => bs "endstream\nendobj" ++ more
+      let pre := prefixJunk p c
+      let steps := viewSteps shape p buf.length suf.length
+      let steps := if (viewFault steps pre buf suf).isNone then steps else [.r p buf.length]
+      some s!"vw {showSteps steps} {hexOrDash pre} {hexOrDash suf} {line}"
+    | none => none
+  | _ => none
+
+/-- windows that end inside an object: a valid one-stream scene cut at every position, the rest of
+    the scene lying behind the window (raw cases: whatever is accepted must lie inside the window) -/
+def cutWindows (emit : String → IO Unit) (full : Bool) : IO Unit := do
+  let mut k := 0
+  for p in [bs "hello", bs "endstream endobj xx", ([] : Bytes), bs "x\n", bs "\nendstream\nendobj\n"] do
+    for eol1 in [0, 1] do
+      for eol2 in [0, 2, 3] do
+        let it := mkStream 1 0 (k % 4) ((k / 4) % 4) (k % 3) 0 p.length 0 0 [k % 9, k % 7, k % 5, k % 4, k % 3, k % 8] eol1 eol2 0 0 p
+        let (buf, _) := renderScene [it] 0
+        for cut in List.range buf.length do
+          k := k + 1
+          if full || k % 4 == 0 || cut + 20 ≥ buf.length then
+            let line := s!"raw 10 {hexOrDash (buf.take cut)} 0 1:0"
+            match viewLine k line (some (buf.drop cut)) with
+            | some l => emit l
+            | none => pure ()
 
 def payloads : List Bytes := [
   bs "hello",
@@ -437,7 +616,17 @@ def randItem (r : Rng) (ids : List Nat) : Item × Rng :=
       if lk < 4 then (0, n, style) else if lk < 8 then (1, tgt, if rgen == 4 then 1 else if rgen == 5 then 65535 else 0) else if lk == 8 then (2, 0, 0) else (3, oth, 0)
     (mkStream num gen pre post order lkK la lb lkey ws eol1 eol2 es eo p, r)
 
-def gen (seed n : Nat) (tier : String) (emit : String → IO Unit) : IO Unit := do
+def gen (seed n : Nat) (tier : String) (emit0 : String → IO Unit) : IO Unit := do
+  -- every case is emitted twice: as it is, and on a restricted view
+  let ctr ← IO.mkRef 0
+  let emitC (cont : Option Bytes) (line : String) : IO Unit := do
+    emit0 line
+    let c ← ctr.modifyGet fun c => (c, c + 1)
+    match viewLine c line cont with
+    | some l => emit0 l
+    | none => pure ()
+  let emit := emitC none
+  cutWindows emit0 (tier == "thorough")
   generations emit
   wide emit (tier == "thorough")
   systematic emit (tier == "thorough")
@@ -471,7 +660,8 @@ def gen (seed n : Nat) (tier : String) (emit : String → IO Unit) : IO Unit := 
       | 2 => buf.take pos ++ [b] ++ buf.drop (pos + 1)
       | _ => buf.take pos ++ [b] ++ buf.drop pos
     let offs := ",".intercalate ((lays.map (·.off)).filter (· ≤ mb.length) |>.map toString)
-    emit s!"raw 10 {hexOfBytes mb} {if offs == "" then "0" else offs} 1:0,2:0"
+    -- (on a view: behind a truncated window lies the rest of the scene)
+    emitC (if how == 0 then some (buf.drop pos) else none) s!"raw 10 {hexOfBytes mb} {if offs == "" then "0" else offs} 1:0,2:0"
 
 def containsSub (hay needle : Bytes) : Bool :=
   (List.range (hay.length + 1)).any fun i => needle.isPrefixOf (hay.drop i)
@@ -480,8 +670,8 @@ def containsSub (hay needle : Bytes) : Bool :=
     or whose declared length is not the payload length, or is declared by reference / invalidly;
     or any object with a number written outside the i64 range;
     raw cases: the mutated text still contains `stream` -/
-def nontrivial (line : String) : Bool :=
-  match words line with
+def nontrivialPlain (ws : List String) : Bool :=
+  match ws with
   | ["sc", _, _, _, _, desc] =>
     match parseDesc desc with
     | some items => items.any fun it =>
@@ -493,6 +683,13 @@ def nontrivial (line : String) : Bool :=
     | none => false
   | "raw" :: _ :: hex :: _ => containsSub (hexTok hex) Framing.kwStream
   | _ => false
+
+/-- a case on a view is non-trivial when the case is, and the window lies strictly inside the
+    allocation or does not start at its first byte -/
+def nontrivial (line : String) : Bool :=
+  match words line with
+  | "vw" :: _ :: pre :: suf :: rest => nontrivialPlain rest && (pre != "-" || suf != "-")
+  | ws => nontrivialPlain ws
 
 def driver : PropDriver := { gen, model, judge, nontrivial }
 end Driver.C05
